@@ -112,7 +112,8 @@ CHECKS = {
             "independent tensor-product Cox-de Boor + quotient-rule reference and the documented formulas",
             "Every evaluation route (single point, tensor grid, scattered points in xyz order, Jacobians, Hessians) of "
             "generated B-spline/NURBS functions of sdim 1-3 with scalar/vector/matrix values is compared with an "
-            "independent reference; every geometry operation (translate, scale, rotate, apply_matrix, getitem, as_nurbs, "
+            "independent reference; every geometry operation (translate, scale, rotate, apply_matrix, component selection with "
+            "non-negative / negative integers, open-ended and stepped slices and index lists, as_nurbs, "
             "as_vector, copy, boundary by name and pair, reduced support, tensor_product, outer_sum/product with "
             "broadcasting, cylinderize) is compared with its documented formula evaluated on reference values and the "
             "operands must stay bit-identical; UserFunction/ComposedFunction/_BoundaryFunction routes and chain rule; "
@@ -128,8 +129,8 @@ CHECKS = {
             "blocked/packed with the documented permutation, entry / multi_entries / multi_blocks on unsorted subsets, "
             "on-demand bounding boxes, update()/update_params() versus a fresh assembler, reuse of one object - must "
             "reproduce the base result to rounding, and thread counts 2..16 (thread-pool chunking and OpenMP prange) must "
-            "reproduce it bit for bit; update/assemble histories on one assemble.Assembler object must equal freshly constructed "
-            "assemblers. Sampling; the thread schedule is not owned by the harness (races searched by "
+            "reproduce it bit for bit; update/assemble histories on one assemble.Assembler object (fields entering by value only, and by value "
+            "and gradient) must equal freshly constructed assemblers. Sampling; the thread schedule is not owned by the harness (races searched by "
             "repetition).",
             "Trusted: the base configuration is tied to the independent reference by C01. A race needing a rare "
             "interleaving can be missed.",
@@ -213,7 +214,8 @@ CHECKS = {
             "All orders of the interface joins for 2x1, 2x2, 3x2 complexes and rings of 3..6 patches (2x2x2 sampled), with "
             "all consistent flips and re-parametrisations, are enumerated and compared with a union-find model: numdofs = "
             "number of classes, equal global index iff same class, gap-free numbering, 0/1 patch-to-global matrices with "
-            "X^T X = I. Generated conforming decompositions of a curved patch are compared with the undivided patch "
+            "X^T X = I; join sequences may be interrupted by finalize() + a complete query of the structure before "
+            "further interfaces are declared (all orders x all stage patterns for 2x2). Generated conforming decompositions of a curved patch are compared with the undivided patch "
             "(mass, stiffness, non-symmetric space-time heat, L2 functional), detect_interfaces must return exactly the "
             "constructed interfaces with flips (also for rings around a vertex and polygonal annuli in which two patches share "
             "two faces), multipatch Dirichlet data must address the glued dofs. Exhaustive for "
@@ -228,7 +230,9 @@ CHECKS = {
             "arguments), asmatrix, level reordering (perfect-shuffle similarity), transpose, join, slice, from_kvs / "
             "compute_sparsity_ij against reference support overlaps (different degrees, repeated knots, nested and "
             "unrelated meshes), kron_partial against selected rows of the dense product, and all index maps as mutually "
-            "inverse bijections are compared with the dense definition; native kernels run crash-isolated. Exhaustive "
+            "inverse bijections are compared with the dense definition; a generated history on one MLMatrix (repeated asmatrix / "
+            "dot / complex dot / data setter, the caller modifying every returned matrix and product in place) must keep "
+            "answering with the dense definition; native kernels run crash-isolated. Exhaustive "
             "for the stated small families, sampling beyond.",
             "Trusted: numpy.kron dense reference (vp/ref/c15_ml.py). Data are small dyadic rationals (exact comparison).",
             "DESIGN.md section 2, C15"),
@@ -261,8 +265,9 @@ CHECKS = {
             "after every step) + generated operators/tensors for HOSVD/ACA/ALS; oracle = dense numpy arrays",
             "Sequences of up to 8 operations (add/sub/neg across canonical/Tucker/ndarray/sum/product formats, indexing "
             "with negative and stepped slices and index lists, squeeze, mode products, pad, conversions, orthogonalize, "
-            "compress, truncate, join_tucker_bases, norms) are executed on pyiga tensors and on numpy arrays in lock step "
-            "with an accumulated tolerance; CanonicalOperator algebra, HOSVD exactness/orthonormality, compression error "
+            "compress, truncate, join_tucker_bases, norms, single-factor products and sums built on them) are executed on pyiga tensors and on numpy arrays in lock step "
+            "with an accumulated tolerance, every pool entry being re-expanded after every step and once more at the end; "
+            "CanonicalOperator algebra, HOSVD exactness/orthonormality, compression error "
             "bounds, TensorGenerator indexing, cross approximation of exact low-rank inputs and greedy error histories "
             "are checked against dense references. Sampling, not proof.",
             "Trusted: numpy dense tensor algebra (vp/ref/c18_dense.py). numpy's global RNG is seeded from the spec.",
